@@ -578,3 +578,56 @@ Proof.
   exists P_names, [kwtwo_s0], 1, (DSBody []), "Select", ["e"], 0, 6, kwtwo_s0, 18.
   vm_compute. repeat split. discriminate.
 Qed.
+
+(* ---- OPEN finding (KNOWN_FINDINGS.txt, c03.KNOWN_OPEN W1): the passed lambda is not written directly as
+   the operator's argument
+       flag = False
+       r = ds.Select((lambda x: x + 1) if flag else (lambda x: x + 2))             stream from row 2
+   `lambda` tokens: 7 (filed under Select), 18 (the passed one: filed under `else`) ---- *)
+Definition condarg_s0 : list tok :=
+  [T 2 KName "r";
+   T 2 KOp "=";
+   T 2 KName "ds";
+   T 2 KOp ".";
+   T 2 KName "Select";
+   T 2 KOp "(";
+   T 2 KOp "(";
+   T 2 KName "lambda";
+   T 2 KName "x";
+   T 2 KOp ":";
+   T 2 KName "x";
+   T 2 KOp "+";
+   T 2 KOther "1";
+   T 2 KOp ")";
+   T 2 KName "if";
+   T 2 KName "flag";
+   T 2 KName "else";
+   T 2 KOp "(";
+   T 2 KName "lambda";
+   T 2 KName "x";
+   T 2 KOp ":";
+   T 2 KName "x";
+   T 2 KOp "+";
+   T 2 KOther "2";
+   T 2 KOp ")";
+   T 2 KOp ")";
+   T 2 KNewline nl_text;
+   T 3 KOther ""].
+
+(* the current selection (all fixes) returns the neighbour: every hypothesis of never_picks_neighbour holds
+   for the passed lambda (token 18) except the caller conjunct of lambda_atb - [called_byb]: its key is
+   `else`, not Select *)
+Lemma condarg_open_refuted :
+  exists P streams L dsrc caller args s k toks k0 t0,
+    find P streams L true dsrc (Some caller) args = Found s k /\
+    nth_error streams s = Some toks /\ rows_okb toks = true /\
+    nth_error toks k0 = Some t0 /\ is_name "lambda" t0 = true /\ trow t0 = L /\
+    P (extent toks k0 (ext_stop toks k0)) = PArgs args /\
+    not_nestedb toks k0 = true /\
+    key_before toks k0 = Some "else" /\ called_byb toks k0 caller = false /\
+    lambda_atb P toks k0 L caller args = false /\
+    k <> k0.
+Proof.
+  exists P_names, [condarg_s0], 2, (DSBody []), "Select", ["x"], 0, 7, condarg_s0, 18, (T 2 KName "lambda").
+  vm_compute. repeat split. discriminate.
+Qed.
